@@ -33,7 +33,9 @@ def _tiefree(draw, max_size=12):
         pos, neg = s[:n], s[n:]
         if arr == "near_inv":
             pos[-1], neg[0] = neg[0], pos[-1]
-    ez = st.one_of(st.just(0), st.just(0), st.integers(1, 5), st.integers(6, 200))
+    # (the last option: "virtual" data sets with 1e4-1e6 easy samples per scored one)
+    ez = st.one_of(st.just(0), st.just(0), st.integers(1, 5), st.integers(6, 200),
+                   st.sampled_from([100_000, 1_000_000, 5_000_000]))
     return dict(kpos=list(pos), kneg=list(neg), a=a, b=b, ep=draw(ez), en=draw(ez), arr=arr,
                 centre=draw(st.sampled_from([None, None, "gap", "all"])),
                 a2=draw(st.sampled_from([0.5, 2.0, 3.0, 0.1, 7.3, 1e-4, 1e-7, 1e4])),
@@ -77,9 +79,10 @@ def check_crossing(case):
         t, e = float(t), float(e)
         require(0.0 <= e <= 1.0, "eer:range", f"{ctx} eer={e!r}")
         fpr, fnr = float(s.fpr(t)), float(s.fnr(t))
-        require(abs(fpr - e) <= 1.0 / Nn + 1e-6, "eer:fpr-crossing",
+        # one sample, plus a slack for the root finder (1e-6, at most 1% of a sample)
+        require(abs(fpr - e) <= 1.0 / Nn + min(1e-6, 0.01 / Nn), "eer:fpr-crossing",
                 lambda: f"{ctx} t={t!r} eer={e!r} FPR(t)={fpr!r}: off by {abs(fpr - e) * Nn:.4f} samples of 1/{Nn}")
-        require(abs(fnr - e) <= 1.0 / P + 1e-6, "eer:fnr-crossing",
+        require(abs(fnr - e) <= 1.0 / P + min(1e-6, 0.01 / P), "eer:fnr-crossing",
                 lambda: f"{ctx} t={t!r} eer={e!r} FNR(t)={fnr!r}: off by {abs(fnr - e) * P:.4f} samples of 1/{P}")
         cap = min(len(pos) / P, len(neg) / Nn)
         require(e <= cap + 1e-9, "eer:cap", f"{ctx} eer={e!r} > min hard fraction {cap!r}")
@@ -113,6 +116,38 @@ def check_crossing(case):
                 lambda: f"{ctx} t={t!r} negated object gives {tn!r}")
     labels = [f"arr:{case['arr']}"] + (["easy"] if ep or en else [])
     return dict(nontrivial=overlap or bool(ep or en), labels=labels)
+
+
+# ---------------------------------------------------------------------- large inverted classes
+def _inverted_cases(tier):
+    """Perfectly inverted classes of about a thousand scores with a few easy samples each: the two
+    hard-sample fractions are then close but not equal."""
+    sizes = [(1000, 999, 1, 1), (999, 1000, 1, 1), (5000, 4999, 3, 3), (2000, 2000, 5, 5), (1200, 1199, 2, 1)]
+    if tier != "quick":
+        sizes += [(20000, 19999, 7, 7), (1000, 999, 2, 2), (999, 1000, 3, 3), (3000, 2998, 1, 1)]
+    for n, m, ep, en in sizes:
+        for sc, ec in CONFIGS:
+            yield dict(n=n, m=m, ep=ep, en=en, sc=sc, ec=ec)
+
+
+def check_inverted(case):
+    n, m, ep, en, sc, ec = (case[k] for k in ("n", "m", "ep", "en", "sc", "ec"))
+    # inverted: the class the scores should favour lies entirely on the wrong side
+    if sc == "pos":
+        pos, neg = np.arange(n) * 0.5, 10_000.25 + np.arange(m) * 0.5
+    else:
+        pos, neg = 10_000.25 + np.arange(n) * 0.5, np.arange(m) * 0.5
+    s = _mk(pos.tolist(), neg.tolist(), ep, en, sc, ec)
+    t, e = s.eer()
+    t, e = float(t), float(e)
+    P, Nn = n + ep, m + en
+    cap = min(n / P, m / Nn)
+    ctx = f"inverted classes n={n} m={m} ep={ep} en={en} config={sc}/{ec}"
+    require(0.0 <= e <= cap + 1e-9, "eer:cap", f"{ctx}: eer={e!r} exceeds the smaller hard-sample fraction {cap!r} by {e - cap:.3g}")
+    fpr, fnr = float(s.fpr(t)), float(s.fnr(t))
+    require(abs(fpr - e) <= 1.0 / Nn + min(1e-6, 0.01 / Nn) and abs(fnr - e) <= 1.0 / P + min(1e-6, 0.01 / P),
+            "eer:fpr-crossing", f"{ctx}: t={t!r} eer={e!r} FPR(t)={fpr!r} FNR(t)={fnr!r}")
+    return dict(nontrivial=True, labels=["inverted-large"])
 
 
 # ---------------------------------------------------------------------- zero clause
@@ -210,10 +245,12 @@ PROP = Prop(
     clauses=[
         Clause("crossing", check_crossing, strategy=lambda tier: _tiefree(12 if tier == "quick" else 40), quick=100, thorough=2000,
                quick_shards=6, min_nontrivial=100, doc="defining relation, cap, equivariance"),
+        Clause("inverted_large", check_inverted, kind="enum", cases=_inverted_cases, quick_shards=4, shards=8,
+               min_nontrivial=10, doc="~1000 inverted scores per class, close hard-sample fractions"),
         Clause("zero", check_zero, strategy=st.one_of(_any_scores(), _any_scores(), _any_scores(), _narrow_scores(), _narrow_scores(), _longdouble_scores()), quick=250, thorough=4800, quick_shards=2,
                min_nontrivial=50, doc="reported EER 0 comes with an error-free threshold"),
     ],
     assumptions=["'moderate magnitude': |score| <= ~2e6; tie-free inputs have separation >= 1e-3"],
 )
 
-RULE_EXTRA = ('score scales 1e-9..1e6; uint8/int8/int16/uint16/float16 scores near the top of their range and long-double scores one extended ulp apart (zero clause); GroupScores over the same unsorted data must give the same eer().')
+RULE_EXTRA = ('1e5-5e6 easy samples next to 1-12 scored ones with a slack of 1% of a sample; clause inverted_large; score scales 1e-9..1e6; uint8/int8/int16/uint16/float16 scores near the top of their range and long-double scores one extended ulp apart (zero clause); GroupScores over the same unsorted data must give the same eer().')
